@@ -638,6 +638,7 @@ func runC14(r *Report, p *Program) {
 	selectionTables(h, "R6")
 	c14Trace(h)
 	c14R8(h)
+	c14R9(h)
 }
 
 // c14R5: who may write the counters, and where.
